@@ -127,9 +127,10 @@ fn codec_try(arg: &str) -> Result<String, String> {
 
 // ---------------------------------------------------------------------------------------------------------------------
 // C15, "arbitrary bytes fed to each CRAM codec decoder": SAMPLED (never counted as proved).  Each decoder runs in a child
-// process under a 4 GiB address-space limit and a wall-clock limit; inputs are its own encodings of a few payloads with
+// process whose allocator refuses any single request above 1 GiB (deterministic; see main.rs), with a per-input hang watchdog; inputs are its own encodings of a few payloads with
 // every single-byte substitution from a small set, every truncation, and PRNG strings.  A panic, an abort (allocation
 // failure), or a case that does not finish is a failure; Ok or Err is fine.
+pub const HANG_S: u64 = 120;
 pub const DECODERS: [&str; 6] = ["rans4x8", "ransnx16", "aac", "tok3", "fqzcomp", "ransnx16-len0"];
 fn hex(x: &[u8]) -> String { x.iter().map(|b| format!("{b:02x}")).collect() }
 fn decoder_seeds(dec: &str) -> Vec<Vec<u8>> {
@@ -183,14 +184,23 @@ pub fn decoder_child(dec: &str, tier: &str, seed: u64, cur_path: &str, start: us
     std::panic::set_hook(Box::new(|info| { if let Some(l) = info.location() { *LOC.lock().unwrap() = format!("{}:{}", l.file().rsplit("noodles-cram/src/").next().unwrap_or(l.file()), l.line()); } }));
     let inputs = decoder_inputs(dec, tier, seed);
     let mut n = 0u64;
+    // watchdog: one input that produces no result within HANG_S seconds is a hang (exit code 3; the parent carries on after it).
+    // Slowness below that is NOT a failure: wall-clock jitter must never turn into an alarm.
+    static CASE_START: std::sync::atomic::AtomicU64 = std::sync::atomic::AtomicU64::new(0);
+    let t0 = std::time::Instant::now();
+    std::thread::spawn(move || loop {
+        std::thread::sleep(std::time::Duration::from_secs(1));
+        let st = CASE_START.load(std::sync::atomic::Ordering::Relaxed);
+        if st != 0 && t0.elapsed().as_secs() > st + HANG_S { std::process::exit(3); }
+    });
     for (idx, x) in inputs.iter().enumerate().skip(start) {
         let _ = std::fs::write(cur_path, format!("{idx} {}", hex(x)));
-        let t = std::time::Instant::now();
+        CASE_START.store(t0.elapsed().as_secs().max(1), std::sync::atomic::Ordering::Relaxed);
         let r = std::panic::catch_unwind(|| run_decoder(dec, x).map(|v| v.len()));
         n += 1;
         if r.is_err() { println!("FAIL PANICS at {}\t{}", LOC.lock().unwrap(), hex(x)); }
-        else if t.elapsed().as_secs() >= 5 { println!("FAIL takes {} s\t{}", t.elapsed().as_secs(), hex(x)); }
     }
+    CASE_START.store(0, std::sync::atomic::Ordering::Relaxed);
     println!("DONE {n}");
 }
 fn cram_decoders_hostile(tier: &str, seed: u64) -> Result<String, String> {
@@ -201,12 +211,12 @@ fn cram_decoders_hostile(tier: &str, seed: u64) -> Result<String, String> {
     let mut fails: BTreeMap<String, (std::collections::BTreeSet<String>, String, String)> = BTreeMap::new();
     for dec in DECODERS {
         let cur = std::env::temp_dir().join(format!("verif-native-cur-{}-{}", std::process::id(), dec));
-        let limit = if tier == "thorough" { 900 } else { 200 };
+        let limit = if tier == "thorough" { 3000 } else { 1500 };
         let mut start = 0usize;
         let mut restarts = 0;
         loop {
             let out = std::process::Command::new("sh").arg("-c")
-                .arg(format!("ulimit -v 4194304; exec timeout {limit} {} child-dec-{dec} --tier {tier} --seed {seed} --cur {} --start {start} 2>/dev/null", exe.display(), cur.display()))
+                .arg(format!("ulimit -v 33554432; exec timeout {limit} {} child-dec-{dec} --tier {tier} --seed {seed} --cur {} --start {start} 2>/dev/null", exe.display(), cur.display()))
                 .output().map_err(|e| e.to_string())?;
             let text = String::from_utf8_lossy(&out.stdout).to_string();
             let mut done = false;
@@ -224,7 +234,8 @@ fn cram_decoders_hostile(tier: &str, seed: u64) -> Result<String, String> {
             // the child died on one input: record it and carry on after it
             let c = std::fs::read_to_string(&cur).unwrap_or_default();
             let (idx, h) = c.split_once(' ').unwrap_or(("", ""));
-            let kind = match out.status.code() { Some(124) => format!("does not finish within {limit} s"), Some(c) => format!("process exits with code {c}"), None => "ABORTS the process (allocation failure / signal)".to_string() };
+            if out.status.code() == Some(124) { return Err(format!("UNDECIDED: decoder {dec} did not finish its inputs within {limit} s of wall clock")); }
+            let kind = match out.status.code() { Some(3) => format!("HANGS (no result within {HANG_S} s)"), Some(c) => format!("process exits with code {c}"), None => format!("ABORTS the process in {dec} (a single allocation request above 1 GiB, or a signal)") };
             note(kind, h);
             restarts += 1;
             match idx.parse::<usize>() { Ok(k) if restarts < 200 => { cases += (k + 1 - start) as u64; start = k + 1; } _ => break }
